@@ -123,6 +123,7 @@ class C02:
         objs = pyside.rand_objects(rng, ctx.scale(220, 5000))
         objs += ["a" * 65537, b"b" * 70001, bytearray(b"c" * 65600), ["\u20ac" * 30000, b"d" * 66000, ("e" * 65536,)]]   # > 64 KiB payloads
         objs += ["\u00c3\u00a9", "na\u00c3\u00afve", ["\u00e2\u0082\u00ac", "\u00c2\u00a0"], {"\u00c3\u00a9": "\u00f0\u009f\u0098\u0080"}]   # Latin-1 text whose raw bytes are valid UTF-8
+        objs += [{float("nan"): 1, float("nan"): 2}, {(float("nan"), "a"): 1, (float("nan"), "a"): 2, 1.5: 3}, [float("nan"), float("nan")]]   # distinct NaN objects: distinct keys
         objs += [2 ** 1016, -2 ** 1016, 2 ** 2038, b"", bytearray(), [b"", bytearray(b"")], {(): 1}, {(1, (2, "a")): [1]},
                  "\ud800", ["a\udfffb"], {1: {2: {3: []}}}, [[]] * 2]
         x = [1, 2]
@@ -317,6 +318,16 @@ class C06:
         progs += [q for q in P.well_known_call_programs(tuple_args_only=True)
                   if not any(x in q for x in (b"_codecs", b"codecs\n", b"bytes\n", b"bytearray\n", b"\x05bytes", b"\tbytearray", b"\x06codecs", b"\x07_codecs"))]
         progs += [b"\x80\x03cbuiltins\nbytearray\n(]tR.", b"\x80\x02c__builtin__\nbytearray\n(K\x03tR."]
+        # py2 strings as Python's repr writes them: both quote kinds, the delimiter as last character, backslashes at the end
+        for t in (b"'", b'"', b"\"'", b"'\"", b"a'", b'a"', b"it's \"x\"'", b"\\", b"a\\", b"\\'", b"'\\", b"''", b'""', b"x'y\"z'"):
+            r = repr(t)[1:].encode()
+            progs += [b"S" + r + b"\n.", b"(S" + r + b"\nI1\nt.", b"S\"" + t.replace(b"\\", b"\\\\").replace(b'"', b'\\"') + b"\"\n."]
+        # payloads beyond the 64 KiB pre-allocation cap in every 4- / 8-byte length form
+        for n in (65536, 65537, 70000):
+            pay = bytes((i * 7 + 3) % 251 for i in range(n - 1)) + b"."
+            progs += [b"T" + n.to_bytes(4, "little") + pay + b".", b"B" + n.to_bytes(4, "little") + pay + b".",
+                      b"\x96" + n.to_bytes(8, "little") + pay + b".", b"X" + n.to_bytes(4, "little") + b"u" * n + b"."]
+        progs += P.batch_programs()
         nan = b"G\x7f\xf8\x00\x00\x00\x00\x00\x00"     # one NaN object used as a key twice (K6), and two NaN objects (no finding)
         progs += [b"}" + nan + b"q\x00K\x01sh\x00K\x02s.", b"(" + nan + b"q\x00K\x01h\x00K\x02d.", b"}" + nan + b"2K\x01sK\x02s.",
                   b"}" + nan + b"q\x00\x85K\x01sh\x00\x85K\x02s.", b"}" + nan + b"K\x01s" + nan + b"K\x02s."]
@@ -642,6 +653,11 @@ class C01:
         out += [("D", b) for b in V.SPECIAL_FLOATS] + [("I", i) for i in V.INT_LATTICE if -2 ** 63 <= i < 2 ** 63][::7]
         out += [("U", 2 ** 63), ("U", 2 ** 64 - 1), ("L", 2 ** 70), ("L", -2 ** 70 - 1), ("X", 3), ("R", ("S", b"oid")), ("R", ("t", [("I", 1)]))]
         out += [v for v in V.edge_string_values() if v[0] != "R"]
+        out += [("raw", "V0:9223372036854775808", ("U", 2 ** 63)), ("raw", "V0:18446744073709551615", ("U", 2 ** 64 - 1)),
+                ("l", [("raw", "V0:9223372036854775809", ("U", 2 ** 63 + 1)), ("raw", "V32:4294967295", ("I", 2 ** 32 - 1))])]
+        # containers of exactly / around a thousand items (picklers batch at 1000)
+        for n in (999, 1000, 1001, 2000):
+            out += [("l", [("I", i % 7) for i in range(n)]), ("t", [("I", i % 5) for i in range(n)])]
         for _ in range(n):
             g = V.ValueGen(rng, pydict=True, su=True, canonical=False, maxdepth=rng.choice([1, 2, 3, 4]), allow_user=True)
             v = g.value()
